@@ -256,6 +256,8 @@ def sim_step(orig, self, step_size=EventTime(1, EventTime.Unit.US)):
     LOG.append(["step", us(self._simulator_time), d, us(nxt.time) if nxt is not None else None, running])
     # watchdog on SIMULATED progress (not on wall-clock time): the clock must advance within a bounded number of
     # loop iterations (generated worlds handle at most a few hundred events per instant)
+    if len(LOG) > LOG_LIMIT:
+        raise LogLimit("more than %d log entries" % LOG_LIMIT)
     if d == 0:
         CUR["zero_steps"] += 1
         if CUR["zero_steps"] > 20000:
@@ -376,7 +378,7 @@ def sim_init(self, *a, **k):
             CUR["live_workers"][id(w)] = w.name
             ws.append([w.name, [[r.name, r.id, q] for r, q in w.resources.resources]])
         cluster.append([pool.name, pool.id, ws])
-    LOG.append(["cluster", cluster])
+    LOG.append(["cluster", cluster, {str(w.id): w.name for pool in self._worker_pools.worker_pools for w in pool.workers}])
     for e in self._event_queue._event_queue:
         LOG.append(["qpush"] + qkey(e))
 
@@ -462,6 +464,16 @@ def make_fuzz_scheduler(cfg):
                     placements.append(Placement.create_task_placement(task))
                     continue
                 strat, pool = rng.choice(options)
+                if task.state == TaskState.SCHEDULED and rng.random() < cfg.get("p_keep", 0.0):
+                    # re-issue the earlier plan unchanged (same time, pool and strategy) — what an optimiser with a stable
+                    # solution does under retraction; the time may be `now` exactly
+                    prev = task.current_placement
+                    keep_t = us(task.expected_start_time)
+                    if prev is not None and prev.is_placed() and keep_t is not None and keep_t >= now:
+                        placements.append(Placement.create_task_placement(
+                            task=task, placement_time=EventTime(keep_t, EventTime.Unit.US),
+                            worker_pool_id=prev.worker_pool_id, execution_strategy=prev.execution_strategy))
+                        continue
                 rel = us(task.release_time)
                 base = max(now, rel if rel is not None and rel >= 0 else now)
                 if rng.random() < cfg.get("p_future", 0.4):
@@ -489,6 +501,13 @@ def run_with_fuzz_scheduler(world):
                           loop_timeout=EventTime(FLAGS.loop_timeout, EventTime.Unit.US),
                           scheduler_frequency=EventTime(FLAGS.scheduler_frequency, EventTime.Unit.US), _flags=FLAGS)
     simulator.simulate()
+
+
+LOG_LIMIT = 150000
+
+
+class LogLimit(Exception):
+    pass
 
 
 def alarm(signum, frame):
@@ -532,6 +551,10 @@ def run_world(world, tmpdir):
         status, err = "livelock", str(e)
     except WallClock as e:
         status, err = "wallclock", str(e)
+    except LogLimit as e:
+        # the harness's own bound on the size of an observation (e.g. a placement retried every microsecond up to a
+        # distant loop timeout): inconclusive, like a harness timeout
+        status, err = "harness-timeout", str(e)
     except Exception as e:
         status, err = "exception", "%s: %s | %s" % (type(e).__name__, e, traceback.format_exc()[-900:])
     finally:
